@@ -20,7 +20,7 @@ Event tokens:
 * `up.obs ev=<…>` → `final=<none|ok|err> apiErrors=<n> shards=<0|1> tasks=<…>`: the same replay, projected to what
   a client-side observer sees (no latch; per task only `r` not finished, `o` finished ok, `f` finished failed).
 
-* `up.bytes ev=<…>` → `final=<none|ok|err> xorb=<n|none> shard=<n|none>`: replay through the byte-accounting layer
+* `up.bytes ev=<…>` → `final=<none|ok|err> xorb=<n|none> shard=<n|none> total=<n|none>`: replay through the byte-accounting layer
   `Xet.UploadBytes.runB false` (C14, upload-byte clause).  Event tokens: `r<1|0>:<sz>` (register; `sz` = byte count the put
   returns on success), `c<i>:<1|0>`, `f<1|0>:<lastSz>:<o>:<shards>` with `<shards>` = `-` or `/`-separated `<len>.<1|0>`
   (shard length, accepted by the store?) in upload order.
@@ -135,7 +135,7 @@ def upShowBytes (b : Xet.UploadBytes.SB) : String :=
   let o (x : Option Nat) : String := match x with
     | none => "none"
     | some n => toString n
-  s!"final={fin} xorb={o b.reportedXorb} shard={o b.reportedShard}"
+  s!"final={fin} xorb={o b.reportedXorb} shard={o b.reportedShard} total={o b.reportedTotal}"
 
 def handleUploads (_blob : Blob) (cmd : String) (toks : List String) : String :=
   if cmd == "up.bytes" then
